@@ -37,8 +37,15 @@ JOINT = {'AFREE': A4J, 'AFIN': '0x2u', 'BFREE': B8J, 'BFIN': '0x4u'}
 # that set-inclusion caches are consulted with 2-element subsets of an established 3-element set
 JOINT3 = {'AFREE': '0x%xul' % sum(1 << i for i in (0, 2, 4, 10)), 'AFIN': '0x2u', 'BFREE': '0x%xul' % sum(1 << i for i in (0, 1, 4, 5, 8, 9, 10, 13, 17)), 'BFIN': '0x1u'}
 
+# A over 2 states: a->p0, b->p1, g(p0,p1)->p0 (p0 final); B over 3 states: a->r0, a->r1, b->r0, b->r1, b->r2, g(ri,rj)->r0 for all 9
+# pairs (r0 final): below the two children of the rule of A, B reaches 2 and 3 states - the upward algorithm has to enumerate a
+# 2 x 3 product of child tuples
+PROD23 = {'AFREE': '0x29ul', 'AFIN': '0x1u', 'BFREE': '0x7ffbul', 'BFIN': '0x1u'}
+
 def c07_configs(tier):
     out = []
+    out.append(pair(2, 3, [0, 0, 2], **dict(PROD23, ENC=0, SEL=0, SIMSRC=0, _time=1500)))       # 19 bits
+    if tier == 'thorough': out.append(pair(2, 3, [0, 0, 2], **dict(PROD23, ENC=0, SEL=1, SIMSRC=1, _time=1500)))
     for (enc, sel, src) in IMPLEMENTED:
         k = {'ENC': enc, 'SEL': sel, 'SIMSRC': src}
         direct = not (sel & 1) or (enc, sel) == (0, 5)               # selections that sanitise copies themselves: called on the automata as loaded
